@@ -105,7 +105,10 @@ static void run_C18(const Args &a, long cs) {
 				else if (sub == 1) { double v = (r.U() - 0.5) * 1e3; if (r.coin(0.5)) v *= std::pow(10.0, (double)r.range(-9, 9)); /* stored in exponent form for magnitudes >= 1e6 or < 1e-4: the typed reads must agree on what that text denotes */ hist += "wkeyd(" + k + ");"; phase_log("splinetable_write_key"); try { T.write_key(k.c_str(), v); } catch (std::exception &) { threw = true; } rc = splinetable_write_key(&h.c, SPLINETABLE_DOUBLE, k.c_str(), &v); expect("splinetable_write_key"); }
 				else if (sub == 2) { int v1 = -5, v2 = -5; hist += "rkey(" + k + ");"; phase_log("splinetable_read_key"); bool ok = T.read_key(k.c_str(), v1); threw = !ok; rc = splinetable_read_key(&h.c, SPLINETABLE_INT, k.c_str(), &v2); expect("splinetable_read_key"); if (ok && rc == 0 && v1 != v2) fail("splinetable_read_key:value-differs-from-C++", k);
 					double d1 = -5, d2 = -5; ok = T.read_key(k.c_str(), d1); threw = !ok; rc = splinetable_read_key(&h.c, SPLINETABLE_DOUBLE, k.c_str(), &d2); expect("splinetable_read_key"); if (ok && rc == 0 && !biteq(d1, d2)) fail("splinetable_read_key:value-differs-from-C++", k); }
-				else { hist += "gkey(" + k + ");"; phase_log("splinetable_get_key"); const char *v1 = T.get_aux_value(k.c_str()), *v2 = splinetable_get_key(&h.c, k.c_str()); count("calls:splinetable_get_key"); if ((v1 == nullptr) != (v2 == nullptr) || (v1 && strcmp(v1, v2))) fail("splinetable_get_key:differs-from-C++", k); }
+				else { if (T.get_naux_values() && r.coin(0.7)) k = T.get_aux_key(r.below(T.get_naux_values())); hist += "gkey(" + k + ");"; phase_log("splinetable_get_key"); const char *v1 = T.get_aux_value(k.c_str()), *v2 = splinetable_get_key(&h.c, k.c_str()); count("calls:splinetable_get_key"); if ((v1 == nullptr) != (v2 == nullptr) || (v1 && strcmp(v1, v2))) fail("splinetable_get_key:differs-from-C++", k);
+					// the result points into the table (as get_aux_value's does): it stays what it is while the caller fetches other keys, from this handle or another one
+					if (v1 && v2) { std::string want = v1; long others = 0; for (int gi = 0; gi < nh; gi++) { H &g = hs[gi]; if (!g.live || !g.c.data) continue; Table &GT = *g.twin; for (size_t qi = 0; qi < GT.get_naux_values(); qi++) { const char *ok = GT.get_aux_key(qi); if (&g == &h && k == ok) continue; const char *ov = splinetable_get_key(&g.c, ok); if (ov) others++; } }
+						if (others) { count("get_key:results-re-examined-after-fetching-other-keys"); if (want != v2) fail("splinetable_get_key:earlier-result-changed-by-a-later-call", k); } } }
 				break; }
 			case 8: case 9: case 10: { // accessors + evaluation (populated tables only)
 				if (!populated) { if (splinetable_ndim(&h.c) != 0) fail("splinetable_ndim:non-zero-for-empty-table", ""); count("calls:splinetable_ndim"); continue; }
